@@ -181,8 +181,21 @@ def run(prog, chk):
                     continue
                 p = f.node_pos(i)
                 path = f.find_path(p, {f.exit_pos()}, avoid=set(w.pos for w in bw))
-                if path is None:
-                    chk.ok("C08.del", f, "delete[] buffer then re-seat", f.where(i), "every path to the exit writes `buffer`")
+                # the window pointers point into the block just freed: both have to be re-seated as well
+                dang = None
+                for fld in ("bufferStart", "bufferEnd"):
+                    fw = set(w.pos for w in q.field_writes(f, fld) if w.pos is not None and w.rhs is not None and
+                             not re.fullmatch(r"\(?this->buffer(Start|End)\)?", q.no_casts(f.r(w.rhs)).strip()))
+                    pth = f.find_path(p, {f.exit_pos()}, avoid=fw)
+                    if pth is not None and not fin.always_after(f, p, fw):      # (paths that contradict what is known at the delete do not count)
+                        dang = (fld, pth)
+                if path is None and dang is not None:
+                    chk.bad("C08.del", f, "dangling-window-after-delete:" + dang[0], f.where(i),
+                            "the block is freed and a path to the exit leaves `%s` pointing into it (setting it to the other window pointer "
+                            "does not count): the buffer looks empty, but the next zero-length append stores its terminator through the stale "
+                            "pointer - a write into freed memory" % dang[0], f.path_lines(dang[1]))
+                elif path is None:
+                    chk.ok("C08.del", f, "delete[] buffer then re-seat", f.where(i), "every path to the exit writes `buffer` and both window pointers")
                 else:
                     chk.bad("C08.del", f, "dangling-buffer-after-delete", f.where(i),
                             "the block is freed and a path to the exit leaves `buffer` pointing to it (double free / use after free)",
